@@ -109,7 +109,18 @@ struct Tr<'a> {
 
 // the functions of swap.rs translated in data mode
 fn data_fn(owner: &str, name: &str) -> bool {
-    owner == "Matrix" && matches!(name, "swap_rows" | "swap_cols" | "swap_major_axis_vectors" | "swap_minor_axis_vectors")
+    owner == "Matrix"
+        && matches!(
+            name,
+            "swap_rows"
+                | "swap_cols"
+                | "swap_major_axis_vectors"
+                | "swap_minor_axis_vectors"
+                | "iter_nth_major_axis_vector"
+                | "iter_nth_minor_axis_vector"
+                | "iter_nth_major_axis_vector_unchecked"
+                | "iter_nth_minor_axis_vector_unchecked"
+        )
 }
 
 fn fn_uses_es(f: &FnInfo) -> bool {
@@ -263,6 +274,9 @@ impl<'a> Tr<'a> {
     }
     // the value the function finally returns
     fn finish(&self, v: String) -> String {
+        if self.data_mode && !self.self_mut {
+            return format!("Val {}", v);
+        }
         if self.data_mode {
             let me = if self.has_data { "(set_data self data)" } else { "self" };
             let r = if v == "(Ok self)" { "(Ok tt)".to_string() } else { v };
@@ -708,6 +722,21 @@ impl<'a> Tr<'a> {
                     }
                 })
             }
+            Expr::MethodCall(m)
+                if self.data_mode && m.method == "take" && {
+                    let t = tstr(&m.receiver);
+                    t.starts_with("self.data.iter().skip(") && t.contains(").step_by(")
+                } =>
+            {
+                // self.data.iter().skip(a).step_by(b).take(c): the std adaptor chain as executed (zview; step_by(0) panics)
+                let Expr::MethodCall(sb) = &*m.receiver else { return "(*UNSUPPORTED adaptor chain*)".into() };
+                let Expr::MethodCall(sk) = &*sb.receiver else { return "(*UNSUPPORTED adaptor chain*)".into() };
+                let args: Vec<&Expr> = vec![&sk.args[0], &sb.args[0], &m.args[0]];
+                self.exprs(&args, env, &mut |me, vs, env| {
+                    let t = me.fresh("w");
+                    format!("let* {} := zview {} {} {} (m_data self) in\n  {}", t, vs[0], vs[1], vs[2], k(me, t.clone(), env))
+                })
+            }
             Expr::MethodCall(m) => {
                 let rt = self.ty_of(&m.receiver, env);
                 let name = m.method.to_string();
@@ -735,6 +764,11 @@ impl<'a> Tr<'a> {
                     (Ty::Named(s), "row") | (Ty::Named(s), "col") if s == "AsIndex" => {
                         let t = me.fresh("a");
                         format!("let* {} := AsIndex_{} {} in\n  {}", t, name, vs[0], k(me, t.clone(), env))
+                    }
+                    (Ty::Named(s), _) if me.data_mode && recv_is_self && data_fn(s, &name) && !me.callee_is_mut(s, &name) => {
+                        let s = s.clone();
+                        let t = me.fresh("r");
+                        format!("let* {} := G_{}_{} md {} in\n  {}", t, s, name, vs.join(" "), k(me, t.clone(), env))
                     }
                     (Ty::Named(s), _) if me.data_mode && recv_is_self && data_fn(s, &name) => {
                         // another data-mode method: it returns the new matrix together with its result; in tail position
@@ -834,6 +868,11 @@ const TARGETS: &[(&str, &str)] = &[
     ("Matrix", "swap_minor_axis_vectors"),
     ("Matrix", "swap_rows"),
     ("Matrix", "swap_cols"),
+    // iter.rs: the immutable row / column views (data mode)
+    ("Matrix", "iter_nth_major_axis_vector_unchecked"),
+    ("Matrix", "iter_nth_minor_axis_vector_unchecked"),
+    ("Matrix", "iter_nth_major_axis_vector"),
+    ("Matrix", "iter_nth_minor_axis_vector"),
     // the pointer-level state machines of iter/iter_mut.rs
     ("IterNthVectorMut", "assemble"),
     ("IterNthVectorMut", "next"),
@@ -919,7 +958,15 @@ fn main() {
         let rty = if self_mut && tstr(&sig.output) != "->&mutSelf" { format!("(G{} * {})", o, coq_ty(&ret)) } else { coq_ty(&ret) };
         if dm {
             let ps: Vec<String> = params.iter().map(|p| if p.starts_with("(self") { "(self : matrix A)".to_string() } else { p.clone() }).collect();
-            println!("Definition G_{}_{} {{A : Type}} (md : cfg) {} : res (matrix A * result unit) :=\n  {}.\n", o, n, ps.join(" "), body);
+            let rty = if self_mut {
+                "(matrix A * result unit)".to_string()
+            } else {
+                match &ret {
+                    Ty::Res(_) => "(result (list A))".to_string(),
+                    _ => "(list A)".to_string(),
+                }
+            };
+            println!("Definition G_{}_{} {{A : Type}} (md : cfg) {} : res {} :=\n  {}.\n", o, n, ps.join(" "), rty, body);
             continue;
         }
         println!("Definition G_{}_{} (md : cfg){} {} : res {} :=\n  {}.\n", o, n, es, params.join(" "), rty, body);
